@@ -2,6 +2,7 @@ package main
 
 import (
 	"fmt"
+	"strings"
 
 	. "verif/internal/proto"
 	zr "verif/internal/znref"
@@ -241,6 +242,7 @@ func checkC09(c *Ctx) {
 		progs = append(progs, p)
 		shapes = append(shapes, "rand/"+featureKey(g.features))
 	}
+	c09Consistency(c)
 	var inputs []map[string]Val
 	c.runRefCases("exc", progs, inputs, shapes, nil, func(i int, src string, ref zr.Result, resp *Resp) {
 		quiescent(c, "exc", shapes[i], src, resp)
@@ -266,4 +268,65 @@ func quiescent(c *Ctx, kind, shape, src string, resp *Resp) {
 			c.Violation(kind+":scope-depth:"+src, fmt.Sprintf("after a successful run module %s is left at scope depth %d (live symbols %d)\nprogram:\n%s", id, st[0], st[1], src), map[string]interface{}{"req": execReq(src)})
 		}
 	}
+}
+
+// c09Consistency: whatever a failing operation is taken to be - an exception that 拦截异常 may take,
+// or an error that ends the program - it must be the same thing at every distance: with a handler
+// of 异常 on the body that fails AND one on its caller, either the nearest one runs or none does.
+// The caller's handler running while the nearest one was passed over fits no reading.
+func c09Consistency(c *Ctx) {
+	faults := []string{
+		"“{#.2}” % 【“abc”】", "“{#}” % 【真】", "“{#+}” % 【空】", "“{#.1%}” % 【【1】】", "“{” % 【】", "“}” % 【】", "“{}{}” % 【1】", "“{}” % 【1，2】", "“{x}” % 【1】", "“{#.}” % 【1】", "“{#.99999999999999999999}” % 【1】",
+		"“{}” % 5", "5 % “a”", "3x7", "1e+", "以“12x”（转换数值）", "以【1】（交换：1、5）", "以【1】（缺失）", "【1】#5", "【“a” = 1】#“b”", "1 / 0", "未定义名", "“a” * 2", "（解析JSON：“{”）", "（生成JSON：【“k” = 1*10^308 * 10】）",
+		"（读取文件：“/不存在/文件”）", "（读取目录：“/不存在/目录”）", "以“abc”（取样：0、1）", "以“abc”（取样：2、9）", "（新建异常）", "（新建未定义型）", "以5（加：1）", "真 且 1", "如果之名", "（显示）之长度", "以空（长度）",
+	}
+	type cs struct{ fault, src string }
+	var cases []cs
+	for _, f := range faults {
+		for _, pos := range []string{"stmt", "let", "return", "cond", "arg"} {
+			use := "（显示：" + f + "）"
+			switch pos {
+			case "let":
+				use = "令局 = " + f
+			case "return":
+				use = "输出 " + f
+			case "cond":
+				use = "如果 " + f + "：\n\t\t（显示：“then”）"
+			case "arg":
+				use = "（取：" + f + "）"
+			}
+			src := "导入《@JSON》\n导入《@文件》\n如何取？\n\t输入值\n\t输出 值\n如何内层？\n\t（显示：“in”）\n\t" + use + "\n\t（显示：“after-fault”）\n\t输出 1\n\n\t拦截异常：\n\t\t（显示：“inner-handler”）\n\t\t输出 2\n" +
+				"如何外层？\n\t令果 = （内层）\n\t（显示：“back”、果）\n\t输出 果\n\n\t拦截异常：\n\t\t（显示：“outer-handler”）\n\t\t输出 3\n（显示：“result”、（外层））\n"
+			cases = append(cases, cs{f + "/" + pos, src})
+		}
+	}
+	reqs := make([]Req, len(cases))
+	for i, k := range cases {
+		reqs[i] = execReq(k.src)
+		reqs[i].Libs = true
+		reqs[i].EvalBudget = 20000
+	}
+	c.runBatches(reqs, 60, func(i int, req *Req, resp *Resp) {
+		c.Eval()
+		k := cases[i]
+		trace := strings.Join(strings.Fields(strings.ReplaceAll(resp.Display, "\n", " | ")), " ")
+		verdict := "no-failure" // the expression is not a failure after all: nothing to judge
+		switch {
+		case strings.Contains(trace, "outer-handler"):
+			verdict = "passed-over"
+		case strings.Contains(trace, "inner-handler"):
+			verdict = "nearest-handler"
+		case resp.Kind == "error" && resp.Err != nil && resp.Err.Class == "syntax":
+			verdict = "not-a-program"
+		case resp.Kind == "error":
+			verdict = "ends-program"
+		case resp.Kind != "value":
+			verdict = "crash:" + resp.Kind
+		}
+		c.Count("consistency_"+verdict, 1)
+		c.Nontrivial("consistency|" + k.fault + "|" + verdict)
+		if verdict == "passed-over" || strings.HasPrefix(verdict, "crash:") {
+			c.Violation("consistency:"+k.fault, fmt.Sprintf("a failure of %s inside a body with its own 拦截异常 handler, called from a body with another one: trace [%s], outcome %s - neither 'the nearest handler takes it' nor 'no handler takes it'\nprogram:\n%s", k.fault, trace, resp.Kind, k.src), map[string]interface{}{"req": req})
+		}
+	})
 }
